@@ -32,6 +32,8 @@ import (
 var (
 	flagOne     = flag.String("program", "", "debug: run only programs whose String() contains this text and print the outcome")
 	flagProf    = flag.String("cpuprofile", "", "debug: write a CPU profile")
+	flagChild   = flag.Bool("child", false, "internal: run the exploration in this process (the default mode supervises a child)")
+	flagOnly    = flag.String("only", "", "internal: run the single job phase:index and exit")
 	flagWorkers = flag.Int("workers", 0, "number of concurrent sessions (default: GOMAXPROCS)")
 )
 
@@ -65,6 +67,8 @@ type runner struct {
 	sess map[int]*exec.Session
 	runs map[int]int
 }
+
+func newRunner() *runner { return &runner{sess: map[int]*exec.Session{}, runs: map[int]int{}} }
 
 func (r *runner) session(par int) *exec.Session {
 	if s := r.sess[par]; s != nil && r.runs[par] < 1500 {
@@ -285,15 +289,18 @@ func (c *checker) account(j job, exp refeval.Expected, res result) {
 }
 
 // runAll runs every job on `workers` concurrent runners.
-func (c *checker) runAll(jobs []job, workers int, budget time.Duration) {
+func (c *checker) runAll(phaseIdx int, jobs []job, workers int, budget time.Duration) {
 	var next int64 = -1
 	var skipped int64
 	var wg sync.WaitGroup
 	for w := 0; w < workers; w++ {
 		wg.Add(1)
+		w := w
 		go func() {
 			defer wg.Done()
-			rn := &runner{sess: map[int]*exec.Session{}, runs: map[int]int{}}
+			rn := newRunner()
+			jr := openJournal(w)
+			defer jr.Close()
 			defer func() {
 				for _, s := range rn.sess {
 					if s != nil {
@@ -311,6 +318,7 @@ func (c *checker) runAll(jobs []job, workers int, budget time.Duration) {
 					continue
 				}
 				j := jobs[i]
+				jr.note(phaseIdx, i)
 				t0 := time.Now()
 				mm, exp, res := c.verdict(rn, j)
 				c.opMicros.AddN(lastOpClass(j.p), int(time.Since(t0)/time.Microsecond))
@@ -349,6 +357,62 @@ func jobsOf(ps []refeval.Program, seed int64) []job {
 	return jobs
 }
 
+// phase is one job list run at one internal vector size.
+type phase struct {
+	chunk  int
+	jobs   []job
+	budget time.Duration
+}
+
+// space builds the job lists of the tier (deterministic: the supervisor and its
+// children construct identical lists) and the text of the enumeration rule.
+func space(thorough bool, seed int64) ([]phase, []string) {
+	var rule []string
+	budget := 50 * time.Second
+	if thorough {
+		budget = 8 * time.Minute
+	}
+	// (a) depth <= 1: every operator variant x every source configuration, plus the fixed shapes.
+	ps := refeval.Enumerate(1, refeval.Options{})
+	rule = append(rule, fmt.Sprintf("chunk=%d (a) every chain of <=1 operator over the FULL alphabet (all variants of Map/Filter/Flatmap/Head/Cogroup/Repartition, Reshard to 1,2,3) x every source configuration = 8 source templates (Const, ReaderFunc in 3 read styles, ScanReader with/without final newline) x rows{0,1,3,4,5,9} x key pattern{equal,distinct,colliding} x shards{1,2,3}; plus the fixed DAG shapes (shared sub-slice resharded to two different counts then cogrouped, also with a WriterFunc inside the shared part; shuffles nested below and above a cogroup; 3-way cogroup with one source used twice), each with and without a trailing WriterFunc, over every Const<int,int> configuration", refeval.Chunk))
+	// (b) depth 2 (and 3): core alphabet.
+	reduced := refeval.Options{
+		Core: refeval.CoreAlphabet(), FullDepth: 0, NoShapes: true,
+		Sources: []refeval.Source{
+			{Kind: refeval.SrcConst, Schema: []refeval.Col{refeval.Int, refeval.Int}},
+			{Kind: refeval.SrcReaderFunc, Schema: []refeval.Col{refeval.Int, refeval.Int}, Style: 1},
+			{Kind: refeval.SrcScanReader, Schema: []refeval.Col{refeval.Str}},
+		},
+		Sizes: []int{0, refeval.Chunk, refeval.Chunk + 1, 2*refeval.Chunk + 1}, Shards: []int{1, 3},
+		Keys: []refeval.Keys{refeval.KeysCollide},
+	}
+	const reducedText = "3 source templates (Const<int,int>, one-row-per-call ReaderFunc<int,int>, ScanReader) x rows{0,4,5,9} x colliding keys x shards{1,3}"
+	if thorough {
+		all := refeval.Options{Core: refeval.CoreAlphabet(), FullDepth: 0, NoShapes: true, MinDepth: 2}
+		ps = append(ps, refeval.Enumerate(2, all)...)
+		reduced.MinDepth = 3
+		ps = append(ps, refeval.Enumerate(3, reduced)...)
+		rule = append(rule, "(b) every well-typed chain of exactly 2 operators over the CORE alphabet (20 operator variants, every kind present) x every source configuration of (a); (c) every well-typed chain of exactly 3 core operators x "+reducedText)
+	} else {
+		reduced.MinDepth = 2
+		ps = append(ps, refeval.Enumerate(2, reduced)...)
+		rule = append(rule, "(b) every well-typed chain of exactly 2 operators over the CORE alphabet (20 operator variants, every kind present) x "+reducedText)
+	}
+	rule = append(rule, "every program is run on the local executor with Parallelism 1 and with Parallelism 4")
+	phases := []phase{{chunk: refeval.Chunk, jobs: jobsOf(ps, seed), budget: budget}}
+	if thorough {
+		// One run of each depth<=1 program at the real vector size with 129 rows.
+		real := refeval.Enumerate(1, refeval.Options{Sizes: []int{129}, Shards: []int{1, 3}})
+		var rj []job
+		for _, p := range real {
+			rj = append(rj, job{p, 4})
+		}
+		rule = append(rule, "chunk=128: every program of depth <=1 (full alphabet, fixed shapes) over 129-row sources with 1 and 3 shards, Parallelism 4")
+		phases = append(phases, phase{chunk: 128, jobs: rj, budget: budget + 90*time.Second})
+	}
+	return phases, rule
+}
+
 func main() {
 	vsys.Quiet()
 	r := ev.Start("C01", "exploration")
@@ -363,8 +427,17 @@ func main() {
 	c := &checker{r: r, programs: ev.NewCounter(), nontrivial: ev.NewCounter(), results: ev.NewCounter(),
 		opRuns: newTally(), srcRuns: newTally(), opMicros: newTally(), failed: map[string]int{}}
 
-	if *flagOne != "" {
+	switch {
+	case *flagOne != "":
 		debugOne(c, *flagOne)
+		return
+	case *flagOnly != "":
+		runOnly(c, *flagOnly)
+		return
+	case !*flagChild:
+		// A panic in a task goroutine of the local executor kills the process, so
+		// the exploration runs in a child and this process turns a crash into a verdict.
+		supervise(r)
 		return
 	}
 
@@ -373,65 +446,24 @@ func main() {
 		pprof.StartCPUProfile(f)
 		defer pprof.StopCPUProfile()
 	}
-	setChunk(refeval.Chunk)
-	var rule []string
-	depth, budget := 2, 50*time.Second
-	if r.Thorough() {
-		depth, budget = 3, 8*time.Minute
-	}
 	t0 := time.Now()
-	// (a) depth <= 1: every operator variant x every source configuration, plus the fixed shapes.
-	ps := refeval.Enumerate(1, refeval.Options{})
-	rule = append(rule, fmt.Sprintf("chunk=%d (a) every chain of <=1 operator over the FULL alphabet (all variants of Map/Filter/Flatmap/Head/Cogroup/Repartition, Reshard to 1,2,3) x every source configuration = 8 source templates (Const, ReaderFunc in 3 read styles, ScanReader with/without final newline) x rows{0,1,3,4,5,9} x key pattern{equal,distinct,colliding} x shards{1,2,3}; plus the fixed DAG shapes (shared sub-slice resharded to two different counts then cogrouped; shuffles nested below and above a cogroup; 3-way cogroup with one source used twice), each with and without a trailing WriterFunc, over every Const<int,int> configuration", refeval.Chunk))
-	// (b) depth 2 (and 3): core alphabet.
-	reduced := refeval.Options{
-		Core: refeval.CoreAlphabet(), FullDepth: 0, NoShapes: true,
-		Sources: []refeval.Source{
-			{Kind: refeval.SrcConst, Schema: []refeval.Col{refeval.Int, refeval.Int}},
-			{Kind: refeval.SrcReaderFunc, Schema: []refeval.Col{refeval.Int, refeval.Int}, Style: 1},
-			{Kind: refeval.SrcScanReader, Schema: []refeval.Col{refeval.Str}},
-		},
-		Sizes: []int{0, refeval.Chunk, refeval.Chunk + 1, 2*refeval.Chunk + 1}, Shards: []int{1, 3},
-		Keys: []refeval.Keys{refeval.KeysCollide},
-	}
-	const reducedText = "3 source templates (Const<int,int>, one-row-per-call ReaderFunc<int,int>, ScanReader) x rows{0,4,5,9} x colliding keys x shards{1,3}"
-	if r.Thorough() {
-		all := refeval.Options{Core: refeval.CoreAlphabet(), FullDepth: 0, NoShapes: true, MinDepth: 2}
-		ps = append(ps, refeval.Enumerate(2, all)...)
-		reduced.MinDepth = 3
-		ps = append(ps, refeval.Enumerate(3, reduced)...)
-		rule = append(rule, "(b) every well-typed chain of exactly 2 operators over the CORE alphabet (20 operator variants, every kind present) x every source configuration of (a); (c) every well-typed chain of exactly 3 core operators x "+reducedText)
-	} else {
-		reduced.MinDepth = 2
-		ps = append(ps, refeval.Enumerate(2, reduced)...)
-		rule = append(rule, "(b) every well-typed chain of exactly 2 operators over the CORE alphabet (20 operator variants, every kind present) x "+reducedText)
-	}
-	rule = append(rule, "every program is run on the local executor with Parallelism 1 and with Parallelism 4")
+	phases, rule := space(r.Thorough(), r.Seed)
 	enumTime := time.Since(t0)
-	jobs := jobsOf(ps, r.Seed)
-	_ = depth
-	c.runAll(jobs, workers, budget)
-	nSmall := atomic.LoadInt64(&c.st.evaluations)
-
-	var nReal int64
-	if r.Thorough() {
-		// One run of each depth<=1 program at the real vector size with 129 rows.
-		setChunk(128)
-		real := refeval.Enumerate(1, refeval.Options{Sizes: []int{129}, Shards: []int{1, 3}})
-		var rj []job
-		for _, p := range real {
-			rj = append(rj, job{p, 4})
-		}
-		rule = append(rule, "chunk=128: every program of depth <=1 (full alphabet) over 129-row sources with 1 and 3 shards, Parallelism 4")
-		c.runAll(rj, workers, budget+90*time.Second)
-		nReal = atomic.LoadInt64(&c.st.evaluations) - nSmall
+	var perPhase []int64
+	for i, ph := range phases {
+		setChunk(ph.chunk)
+		before := atomic.LoadInt64(&c.st.evaluations)
+		c.runAll(i, ph.jobs, workers, ph.budget)
+		perPhase = append(perPhase, atomic.LoadInt64(&c.st.evaluations)-before)
 	}
-
-	for _, p := range ps {
-		if len(p.Ops) == 2 && p.NumShuffles() > 0 {
-			r.Sample(p.String())
-		}
-		if p.Shape != refeval.ShapeChain && p.Src.Rows == 4 {
+	nSmall := perPhase[0]
+	var nReal int64
+	if len(perPhase) > 1 {
+		nReal = perPhase[1]
+	}
+	for _, j := range phases[0].jobs {
+		p := j.p
+		if j.par == 1 && (len(p.Ops) == 2 && p.NumShuffles() > 0 && p.Src.Rows == refeval.Chunk+1 || p.Shape != refeval.ShapeChain && p.Src.Rows == refeval.Chunk) {
 			r.Sample(p.String())
 		}
 	}
@@ -476,7 +508,7 @@ func cpuNow() time.Duration {
 
 func debugOne(c *checker, sub string) {
 	setChunk(refeval.Chunk)
-	rn := &runner{sess: map[int]*exec.Session{}, runs: map[int]int{}}
+	rn := newRunner()
 	n := 0
 	if sub == "count" {
 		for _, d := range []int{1, 2, 3} {
